@@ -128,6 +128,7 @@ def check(pm: ProgramModel, ctx: Ctx) -> None:
     from ..codec import stress_trees
     cd.report("VOC", "stress-shapes", cd.roundtrip(ctc_model(mb, stress_trees(mb))),
               "constraint shapes that stress normal forms", ("constraint", "constraint-count"))
+    cd.large(mb, BINARY_LOGICAL, mixed=False)
     cd.finish_unowned()
     ctx.analysed["C08:compositions"] = cd.n
     ctx.floor("C08", "obligations", len(ctx.obligations), 40)
